@@ -550,6 +550,55 @@ def overlap_profile(seed):
 PROFILES["term"] = term_profile
 
 
+_STOP_BASE = PROFILES["stop"]
+
+
+def stop_profile(seed):
+    """Random stop scenarios, plus (every 3rd seed) a template: a stop / restart / quit of SEVERAL watchers (no name,
+    or a pattern) reaches a watcher that is active but runs nothing at that instant -- numprocesses 0, or its only
+    worker died a moment ago and no periodic check has replaced it yet.  Stopped means stopped for it too."""
+    import random
+    if seed % 3 != 1:
+        return scenario.gen_scenario(seed, _STOP_BASE)
+    rng = random.Random(seed)
+    ws = [{"name": "w1", "np": rng.choice([0, 1, 1]), "G": 0.1, "W": 0.0},
+          {"name": "w2", "np": rng.choice([1, 2]), "G": rng.choice([0.1, 0.3]), "W": 0.0}]
+    if rng.random() < 0.4:
+        ws.append({"name": "w3", "np": rng.choice([0, 1]), "G": 0.1, "W": 0.0})
+    s = [{"op": "boot"}, {"op": "tick", "n": rng.randint(3, 8)}]
+    for rnd in range(rng.randint(1, 2)):
+        how = rng.choice(["die", "extkill", "decr", "set0", "none"])
+        if how == "die":
+            s.append({"op": "die", "sel": ["w1", 0], "status": rng.choice(scenario.EXIT_STATUSES)})
+        elif how == "extkill":
+            s.append({"op": "extkill", "sel": ["w1", 0]})
+        elif how == "decr":
+            s.append({"op": "req", "cmd": "decr", "props": {"name": "w1", "nb": 2, "waiting": True}})
+            s.append({"op": "tick", "n": rng.randint(2, 4)})
+        elif how == "set0":
+            s.append({"op": "req", "cmd": "set", "props": {"name": "w1", "options": {"numprocesses": 0}, "waiting": True}})
+            s.append({"op": "tick", "n": rng.randint(2, 4)})
+        cmd = rng.choice(["stop", "stop", "stop_pat", "restart", "quit"] if rnd else ["stop", "stop", "stop_pat", "restart"])
+        if cmd == "stop_pat":
+            cmd, props = "stop", {"name": rng.choice(["w*", "w[12]", "*"]), "waiting": rng.random() < 0.6}
+        elif cmd == "quit":
+            props = {"waiting": rng.random() < 0.5}
+        else:
+            props = {"waiting": rng.random() < 0.6}
+        s.append({"op": "req", "cmd": cmd, "props": props})
+        s.append({"op": "tick", "n": rng.randint(6, 14)})
+        if cmd == "quit":
+            break
+        if rng.random() < 0.6:
+            s.append({"op": "req", "cmd": "start", "props": {"waiting": True}})
+            s.append({"op": "tick", "n": rng.randint(4, 9)})
+    s.append({"op": "end", "xprobe": True, "passes": 2})
+    return {"seed": seed, "watchers": ws, "check_delay": rng.choice([1.0, 2.0]), "warmup_delay": 0.0,
+            "stubborn": ["w2"] if rng.random() < 0.3 else [], "obeys": [True], "instant_death": False, "script": s}
+
+
+PROFILES["stop"] = stop_profile
+
 _SIGNALS_BASE = PROFILES["signals"]
 
 
